@@ -39,6 +39,16 @@ fn alpha_rest(decls: Vec<penne::alpha::common::Declaration>) -> String {
             let d = analyzer.analyze(d);
             linter.lint(&d);
             let resolved = penne::alpha::resolver::resolve(d);
+            // the compiler fetches the value of every usize constant from the LLVM generator (Compiler::fetch_declared_constants)
+            // so that it can serve as an array length; without the generator this is emulated for constants whose value is
+            // a plain integer literal
+            if let Ok(penne::alpha::resolved::Declaration::Constant { name, value, value_type: penne::alpha::value_type::ValueType::Usize, .. }) = &resolved {
+                match value {
+                    penne::alpha::resolved::Expression::SignedIntegerLiteral { value, .. } if *value >= 0 => typer.resolve_named_length(name.resolution_id, *value as usize),
+                    penne::alpha::resolved::Expression::BitIntegerLiteral { value, .. } => typer.resolve_named_length(name.resolution_id, *value as usize),
+                    _ => (),
+                }
+            }
             acc = penne::alpha::resolver::accumulate(acc, resolved);
         }
     }
